@@ -142,13 +142,18 @@ def run_histories(res, exe, drv, hists, stats, mism):
                 q.append(A.q_plain(polys, s, t) if h['pen'] == 0 else A.q_taut(h['pen'], polys, s, t))
                 # classifier input of the known finding selective_reroute_not_flagged (see checks/c06.py): the route and the connector's ends are
                 # those of the previous dump and the selective-reroute test as coded flags none of the shapes that left their place in between
-                silent = None
+                silent = False
                 if k >= 1 and len(route) >= 2 and snaps[k - 1][1].get(c) == (s, t) and \
                         d.get('disp_raw', {}).get(c) == run['dumps'][k - 1].get('disp_raw', {}).get(c):
+                    # True: every shape that left its place is passed over by the test; None: no shape left its place (the route can only
+                    # still be stale from the step before); False: the test as coded flags the connector
                     silent = A.reroute_test_silent(h['ops'][ppos[k - 1] + 1:ppos[k]], h['trans'], snaps[k - 1][0], route)
-                meta.append((h, k, ppos[k], c, s, t, polys, route, pts.count(s) > 1 or pts.count(t) > 1, bool(silent)))
+                meta.append((h, k, ppos[k], c, s, t, polys, route, pts.count(s) > 1 or pts.count(t) > 1, silent))
     ans = A.run_driver(drv, q)
+    stale_known = {}
     for n, (h, k, upto, c, s, t, polys, route, coincident, silent) in enumerate(meta):
+        if silent is None:
+            silent = stale_known.get((id(h), c)) == k - 1        # unchanged route, nothing moved: stale iff it was stale (and classified) one step earlier
         chk, mod = ans[2 * n], A.parse_route_answer(ans[2 * n + 1])
         stats['routes'] += 1
         stats['shared_routes'] += 1
@@ -182,6 +187,7 @@ def run_histories(res, exe, drv, hists, stats, mism):
         if bends > 0:
             stats['nontrivial'].add(hashlib.sha256(repr((h['cfg'], polys, s, t)).encode()).hexdigest())
         if cost > mcost + TOL and silent:
+            stale_known[(id(h), c)] = k
             stats['known_reroute_silent'] = stats.get('known_reroute_silent', 0) + 1
             res.violation(dict(base, what='stale route: the connector kept its previous (valid) route although the current scene allows a cheaper one, and the '
                                           'selective-reroute test as coded flags none of the shapes that left their place in this transaction',
